@@ -52,7 +52,7 @@ def run_prop(args, prop, repo, reg, timeout_ms, known, seed):
     payload += [("bounded", n, args.repo, timeout_ms, kmap) for n, f in bounded if args.tier == "thorough" or True]
     if args.jobs > 1 and len(payload) > 1:
         hard_s = float(os.environ.get("PYVC_HARD_S", "150" if args.tier == "quick" else "1500"))
-        results = run_jobs(payload, args.jobs, hard_s)
+        results = run_jobs(payload, args.jobs, hard_s, timeout_ms)
     else:
         results = [M.run_unit(j) for j in payload]
     return summarize(args, prop, results, reg, known, kmap, seed, time.time() - t0, timeout_ms)
@@ -61,15 +61,21 @@ def run_prop(args, prop, repo, reg, timeout_ms, known, seed):
 def _child(jobs, conn):
     from pyvc import main as M
     out = []
+
+    def progress(n_obligations):
+        try:
+            conn.send(("progress", n_obligations))
+        except Exception:
+            pass
     for j in jobs:
-        out.append(M.run_unit(j))
+        out.append(M.run_unit(j, progress))
     try:
         conn.send(out)
     finally:
         conn.close()
 
 
-def run_jobs(payload, njobs, hard_s):
+def run_jobs(payload, njobs, hard_s, timeout_ms=10000):
     """One forked process per chunk of jobs with a hard wall-clock limit: a solver call that ignores its timeout and
     interrupts is killed and its jobs are reported UNDECIDED (never a violation, never a hang)."""
     from multiprocessing.connection import wait
@@ -85,16 +91,21 @@ def run_jobs(payload, njobs, hard_s):
             pr = ctx.Process(target=_child, args=([payload[i] for i in ch], wc))
             pr.start()
             wc.close()
-            running[rc] = (pr, ch, time.time())
+            running[rc] = (pr, ch, time.time(), 0.0)
         ready = wait(list(running), timeout=0.5)
         now = time.time()
         for rc in list(running):
-            pr, ch, t0 = running[rc]
+            pr, ch, t0, extra = running[rc]
             if rc in ready:
                 try:
                     out = rc.recv()
                 except (EOFError, OSError):
                     out = None
+                if isinstance(out, tuple) and out and out[0] == "progress":
+                    # generation finished: the solving phase has its own per-query limits; extend the deadline to cover it
+                    extra = (out[1] / 3.0 + 2) * (3.2 * timeout_ms / 1000.0 + 12)
+                    running[rc] = (pr, ch, now, extra)
+                    continue
                 if out is None and retried.get(tuple(ch), 0) < 2:
                     # the worker died (z3 occasionally segfaults): run the chunk again
                     retried[tuple(ch)] = retried.get(tuple(ch), 0) + 1
@@ -111,7 +122,7 @@ def run_jobs(payload, njobs, hard_s):
                 pr.join()
                 rc.close()
                 del running[rc]
-            elif now - t0 > hard_s * max(1, len(ch) // 20):
+            elif now - t0 > hard_s * max(1, len(ch) // 20) + extra:
                 pr.kill()
                 pr.join()
                 rc.close()
